@@ -86,8 +86,9 @@ CONSTANTS Family,       \* "C14" | "C26" | "C06"
           MaxOps,       \* bound on environment actions of a history
           MaxLines,     \* bound on line actions of a history
           FirstBase,    \* C14: the first action writes the base version
+          OmitSource,   \* runtime option OmitMetricSource: every Metric.Source is ""
           EmitCases,    \* print every maximal history as a CASE line
-          Script,       \* <<>> or the exact sequence of environment actions to follow
+          Prefixes,     \* {} or the set of action sequences the history may follow (scripts and their prefixes)
           DEV_DupeKeyIncludesSource, DEV_DupeKeyIncludesType, DEV_AddDropsExpiry,
           DEV_PartialRegistration, DEV_KindCheckAgainstFirst, DEV_RegisterErrorNotCounted
 
@@ -137,7 +138,8 @@ Cids26 == {"v1", "v2", "bad"}
 \* C06: five sources sharing the names n and m; "+" = the same source with a trailing comment
 Src06(kind, type, op, rterr) ==
   [ok |-> TRUE, stamp |-> 7, rterr |-> rterr,
-   decls |-> <<D("n", "Counter", "Int", <<>>, 1, "inc", FALSE), D("m", kind, type, <<"k">>, 2, op, FALSE)>>]
+   decls |-> <<D("n", "Counter", "Int", <<>>, 1, "inc", FALSE), D("m", kind, type, <<"k">>, 2, op, FALSE)>>
+               \o (IF rterr THEN <<Hid("z", 3)>> ELSE <<>>)]      \* the rterr source divides into a hidden gauge
 Ver06(cid) ==
   CASE cid \in {"cint", "cint+"}   -> Src06("Counter", "Int", "inc", FALSE)
     [] cid \in {"cflt", "cflt+"}   -> Src06("Counter", "Float", "inc", FALSE)
@@ -189,7 +191,7 @@ NoH    == [cid |-> "none", vm |-> 0, objs |-> <<>>]
 Loaded == {n \in NameSet : handles[n].cid # "none"}
 Zero   == [n \in NameSet |-> 0]
 NoAct  == [op |-> "none", name |-> "", to |-> "", cid |-> "", line |-> ""]
-NoLa   == [marked |-> {}, todo |-> <<>>]
+NoLa   == [marked |-> {}, todo |-> <<>>, single |-> FALSE]
 NoLd   == [name |-> "", cid |-> "", i |-> 0, new |-> <<>>, store0 |-> <<>>, out |-> "", fname |-> "", fkind |-> ""]
 NoSnap == [had |-> FALSE, h |-> NoH, view |-> <<>>, ctr |-> <<>>]
 NoSolo == [k |-> "none", t |-> "", keys |-> <<>>, lvs |-> <<>>]
@@ -378,7 +380,12 @@ Init ==
 
 -----------------------------------------------------------------------------
 (***************************************************************************)
-(* Environment actions (what the harness does to the real runtime)         *)
+(* Environment actions (what the harness does to the real runtime).  The   *)
+(* guards depend on the directory and the line budget only, never on what  *)
+(* the loader did, so every deviation setting enumerates the same          *)
+(* histories.  (A direct UnloadProgram of a name without a handle is an    *)
+(* API misuse - nil dereference - and not part of the properties; programs *)
+(* are unloaded the way mtail does it: remove the file, reload.)           *)
 (***************************************************************************)
 IsFile(d, n) == d[n] \notin {"absent", "dir"}
 Act(op, name, to, cid, line) == [op |-> op, name |-> name, to |-> to, cid |-> cid, line |-> line]
@@ -397,19 +404,20 @@ EnvActions ==
          IF FirstBase /\ h = <<>> THEN {Act("write", p, "", "v0", "")}
          ELSE {Act("write", p, "", c, "") : c \in Cids14}
               \cup (IF IsFile(dir, p) THEN {Act("rm", p, "", "", "")} ELSE {})
-              \cup (IF handles[p].cid # "none" THEN {Act("unload", p, "", "", "")} ELSE {})
               \cup (IF nlines < MaxLines THEN {Act("line", "", "", "", l) : l \in LineSet} ELSE {})
               \cup {Act("gc", "", "", "", "")}
     [] Family = "C26" ->
          {Act("write", n, "", c, "") : n \in {x \in NameSet : ~DirName(x) /\ Eligible(x)}, c \in Cids26}
-         \cup {Act("write", n, "", "v1", "") : n \in {x \in NameSet : ~DirName(x) /\ ~Eligible(x)}}
+         \cup {Act("write", n, "", "v1", "") : n \in {x \in NameSet : ~DirName(x) /\ ~Eligible(x) /\ dir[x] = "absent"}}
          \cup {Act("rm", n, "", "", "") : n \in {x \in NameSet : dir[x] # "absent"}}
          \cup {Act("mkdir", n, "", "", "") : n \in {x \in NameSet : DirName(x) /\ dir[x] = "absent"}}
-         \cup {Act("mv", n, n2, "", "") : n \in {x \in NameSet : IsFile(dir, x)},
-                                          n2 \in {x \in NameSet : ~DirName(x) /\ dir[x] = "absent"}}
+         \cup {Act("mv", q[1], q[2], "", "") :                                    \* one side is a program name
+                  q \in {r \in NameSet \X NameSet : /\ IsFile(dir, r[1]) /\ ~DirName(r[2]) /\ dir[r[2]] = "absent"
+                                                    /\ (Eligible(r[1]) \/ Eligible(r[2]))}}
     [] Family = "C06" ->
-         {Act("write", n, "", IF IsFile(dir, n) THEN Touch(dir[n]) ELSE assign[n], "") : n \in NameSet}
-         \cup {Act("rm", n, "", "", "") : n \in {x \in NameSet : IsFile(dir, x)}}
+         \* write the file, LoadProgram(path) / remove the file, UnloadProgram(name) if it has a handle
+         {Act("load", n, "", IF IsFile(dir, n) THEN Touch(dir[n]) ELSE assign[n], "") : n \in NameSet}
+         \cup {Act("unload", n, "", "", "") : n \in {x \in NameSet : IsFile(dir, x)}}
          \cup (IF nlines < MaxLines THEN {Act("line", "", "", "", l) : l \in LineSet} ELSE {})
 
 \* one line: LineCount++, RLock, send to every handle, every VM runs it to the end
@@ -440,9 +448,10 @@ UnloadUpd(n) ==
   /\ tally' = [tally EXCEPT !.unloads[n] = @ + 1]
   /\ ev' = Append(ev, <<"unload", n>>)
 
+Acts == [i \in 1..Len(h) |-> h[i].a]
 Allowed(a) == /\ Len(h) < MaxOps
               /\ a \in EnvActions
-              /\ (Script # <<>> => Len(h) < Len(Script) /\ a = Script[Len(h) + 1])
+              /\ (Prefixes # {} => Append(Acts, a) \in Prefixes)
 
 Env(a) ==
   /\ pc = "idle" /\ Allowed(a)
@@ -455,17 +464,25 @@ Env(a) ==
             IN /\ dir' = d1
                /\ idealRun' = IdealAfter(idealRun, dir, d1)
                /\ pc' = "la_mark"                                         \* followed by LoadAllPrograms
-               /\ UNCHANGED <<handles, objs, dat, ctr, ev, recv, idealRecv, solo, tally, nlines>>
-       [] a.op = "unload" ->
-            /\ UnloadUpd(a.name) /\ pc' = "done"
-            /\ UNCHANGED <<dir, idealRun, objs, dat, recv, idealRecv, solo, nlines>>
+               /\ UNCHANGED <<handles, objs, dat, ctr, ev, recv, idealRecv, solo, tally, nlines, la, ld>>
+       [] a.op = "load" ->                                                 \* write the file, r.LoadProgram(path)
+            /\ dir' = [dir EXCEPT ![a.name] = a.cid]
+            /\ ld' = [NoLd EXCEPT !.name = a.name, !.cid = a.cid]
+            /\ la' = [NoLa EXCEPT !.single = TRUE]
+            /\ pc' = "lp_filter"
+            /\ UNCHANGED <<idealRun, handles, objs, dat, ctr, ev, recv, idealRecv, solo, tally, nlines>>
+       [] a.op = "unload" ->                                               \* remove the file, r.UnloadProgram(name)
+            /\ dir' = [dir EXCEPT ![a.name] = "absent"]
+            /\ IF handles[a.name].cid # "none" THEN UnloadUpd(a.name) ELSE UNCHANGED <<handles, ctr, tally, ev>>
+            /\ pc' = "done"
+            /\ UNCHANGED <<idealRun, objs, dat, recv, idealRecv, solo, nlines, la, ld>>
        [] a.op = "line" ->
             /\ DoLine(a.line) /\ pc' = "done" /\ nlines' = nlines + 1
-            /\ UNCHANGED <<dir, idealRun, handles, tally>>
+            /\ UNCHANGED <<dir, idealRun, handles, tally, la, ld>>
        [] a.op = "gc" ->
             /\ DoGc /\ pc' = "done"
-            /\ UNCHANGED <<dir, idealRun, handles, dat, ctr, ev, recv, idealRecv, solo, tally, nlines>>
-  /\ UNCHANGED <<assign, store, nvm, la, ld, h, snap, fired>>
+            /\ UNCHANGED <<dir, idealRun, handles, dat, ctr, ev, recv, idealRecv, solo, tally, nlines, la, ld>>
+  /\ UNCHANGED <<assign, store, nvm, h, snap, fired>>
 
 -----------------------------------------------------------------------------
 (***************************************************************************)
@@ -473,7 +490,7 @@ Env(a) ==
 (***************************************************************************)
 LaMark ==                      \* markDeleted := all handle names; dirents := os.ReadDir (sorted)
   /\ pc = "la_mark"
-  /\ la' = [marked |-> Loaded, todo |-> SelectSeq(Names, LAMBDA n : dir[n] # "absent")]
+  /\ la' = [marked |-> Loaded, todo |-> SelectSeq(Names, LAMBDA n : dir[n] # "absent"), single |-> FALSE]
   /\ pc' = "la_next"
   /\ UNCHANGED <<dir, assign, handles, store, objs, dat, nvm, ctr, ld, cur, ev, h, nlines, snap, tally, idealRun, recv, idealRecv, solo, fired>>
 
@@ -505,9 +522,10 @@ CrHash ==                      \* `if ok && bytes.Equal(vh.contentHash, contentH
      ELSE /\ pc' = "cr_compile" /\ UNCHANGED <<ev, ld>>
   /\ UNCHANGED <<dir, assign, handles, store, objs, dat, nvm, ctr, la, cur, h, nlines, snap, tally, idealRun, recv, idealRecv, solo, fired>>
 
+SrcLine(d) == IF OmitSource THEN 0 ELSE d.line     \* `if r.omitMetricSource { m.Source = "" }`
 \* a freshly compiled metric object; codegen allocates the datum of a scalar counter (0 at the epoch)
 NewObj(n, d, did) ==
-  [name |-> d.name, prog |-> n, kind |-> d.kind, type |-> d.type, line |-> d.line, keys |-> d.keys,
+  [name |-> d.name, prog |-> n, kind |-> d.kind, type |-> d.type, line |-> SrcLine(d), keys |-> d.keys,
    hidden |-> d.hidden, lvs |-> IF d.keys = <<>> /\ d.kind = "Counter" THEN <<[l |-> <<>>, d |-> did, e |-> 0]>> ELSE <<>>]
 
 CrCompile ==
@@ -576,9 +594,9 @@ CrSwap ==                      \* Lock; close(old.lines); handles[name] = {hash,
 
 LpRet ==                       \* back in LoadAllPrograms: `delete(markDeleted, filepath.Base(dirent.Name()))`
   /\ pc = "lp_ret"
-  /\ la' = [marked |-> la.marked \ {ld.name}, todo |-> Tail(la.todo)]
+  /\ IF la.single THEN la' = NoLa /\ pc' = "done"                         \* LoadProgram was called directly
+     ELSE la' = [la EXCEPT !.marked = @ \ {ld.name}, !.todo = Tail(@)] /\ pc' = "la_next"
   /\ ld' = NoLd /\ snap' = NoSnap
-  /\ pc' = "la_next"
   /\ UNCHANGED <<dir, assign, handles, store, objs, dat, nvm, ctr, cur, ev, h, nlines, tally, idealRun, recv, idealRecv, solo, fired>>
 
 LaUnload ==                    \* `for name := range markDeleted { r.UnloadProgram(name) }`
@@ -649,7 +667,7 @@ IdenticalReloadIsNoop ==
 
 \* C14 (2) a reload that keeps a declaration (same kind, name, value type and keys at the same place)
 \*         keeps that metric's accumulated values and pending expiry
-DataOf(view, p, d) == SelectSeq(view[d.name], LAMBDA x : x.p = p /\ x.t = d.type /\ x.s = d.line /\ x.k = d.kind /\ x.keys = d.keys)
+DataOf(view, p, d) == SelectSeq(view[d.name], LAMBDA x : x.p = p /\ x.t = d.type /\ x.s = SrcLine(d) /\ x.k = d.kind /\ x.keys = d.keys)
 Data(ms) == [i \in 1..Len(ms) |-> ms[i].lvs]
 KeptDeclarationKeepsData ==
   (AtRet({"swapped"}) /\ snap.had) =>
@@ -694,7 +712,7 @@ ViewOf(p) ==
 SoloOK == pc = "idle" => \A p \in Loaded : ViewOf(p) = solo[p]
 
 -----------------------------------------------------------------------------
-Terminal == pc = "idle" /\ (IF Script # <<>> THEN Len(h) = Len(Script) ELSE Len(h) = MaxOps)
+Terminal == pc = "idle" /\ (IF Prefixes # {} THEN \A a \in EnvActions : Append(Acts, a) \notin Prefixes ELSE Len(h) = MaxOps)
 Emit == (EmitCases /\ Terminal) =>
           PrintT(<<"CASE", ToJson([fam |-> Family, assign |-> assign, h |-> h, fired |-> fired])>>)
 \* fingerprint without the history (property configurations)
